@@ -749,12 +749,12 @@ pub fn exec(lineno: usize, l: &str) -> String {
             }
         },
         // projection for C08: is the value (plain and validated) the same under all 24 relabellings of the four suits?
-        // A relabelled card is rebuilt through the public accessors and `create`.
+        // A relabelled card is built from the documented layout alone (same rank field, the suit bit moved) - not through
+        // the crate's accessors or `create`, so that this projection speaks about ranking only.
         "relabel" => {
             let v = nums();
             let n = v[0] as usize;
             let ws = &v[1..];
-            let suits: Vec<CardSuit> = CardSuit::iter().collect();
             let r = guard(|| {
                 let mut same = true;
                 let mut same_v = true;
@@ -769,17 +769,22 @@ pub fn exec(lineno: usize, l: &str) -> String {
                     };
                 }
                 let (v0, w0) = vals!(ws);
-                let mut p = [0usize, 1, 2, 3];
-                // all 24 permutations of the four real suits (Heap's algorithm, iterative)
+                let mut p = [0u32, 1, 2, 3];
+                // all 24 permutations of the four suits (clubs 0 .. spades 3), Heap's algorithm
                 let mut c = [0usize; 4];
                 let mut i = 0;
-                let mut check = |p: &[usize; 4]| {
+                let mut check = |p: &[u32; 4]| {
                     let mut h = [0u64; 7];
                     for (k, w) in ws.iter().enumerate() {
                         let card = *w as u32;
-                        let si = suit_index(card.get_card_suit());
-                        let ns = if si < 4 { suits[p[si]] } else { suits[si] };
-                        h[k] = u64::from(<CKCNumber as PokerCard>::create(card.get_card_rank(), ns));
+                        let nib = (card >> 12) & 0xF;
+                        // suit = log2 of the suit nibble (0 for an empty nibble, like the model's N.log2)
+                        let s = if nib == 0 { 0 } else { 31 - nib.leading_zeros() };
+                        let rank = (card >> 8) & 0xF;
+                        const PRIMES: [u32; 16] = [2, 3, 5, 7, 11, 13, 17, 19, 23, 29, 31, 37, 41, 0, 0, 0];
+                        let ns = if s < 4 { p[s as usize] } else { s };
+                        // layout r s of the specification (only meaningful for the 13 ranks; sweeps use real cards)
+                        h[k] = u64::from((1u32 << (16 + rank)) | (1 << (12 + ns)) | (rank << 8) | PRIMES[rank as usize]);
                     }
                     let (v1, w1) = vals!(&h[..n]);
                     same &= v1 == v0;
